@@ -3,10 +3,16 @@ package checks
 
 import (
 	_ "verif/harness/internal/c01"
+	_ "verif/harness/internal/c02"
 	_ "verif/harness/internal/c03"
+	_ "verif/harness/internal/c04"
+	_ "verif/harness/internal/c05"
+	_ "verif/harness/internal/c06"
 	_ "verif/harness/internal/c07"
 	_ "verif/harness/internal/c08"
+	_ "verif/harness/internal/c09"
 	_ "verif/harness/internal/c10"
+	_ "verif/harness/internal/c11"
 	_ "verif/harness/internal/c12"
 	_ "verif/harness/internal/c13"
 	_ "verif/harness/internal/c14"
